@@ -290,6 +290,24 @@ class Model:
             elif isinstance(node, ast.AnnAssign) and isinstance(node.target, ast.Name):
                 if node.value is not None:
                     mod.constants[node.target.id] = node.value
+        # a module-level table that later module-level statements fill further (T.update(..), T[k] = v, T.append(..)):
+        # its value is not the literal it was bound to
+        for node in mod.tree.body:
+            tgt = None
+            if isinstance(node, ast.Expr) and isinstance(node.value, ast.Call) and isinstance(node.value.func, ast.Attribute) and isinstance(node.value.func.value, ast.Name) and node.value.func.attr in ("update", "append", "extend", "add", "setdefault", "pop", "clear", "insert", "remove", "discard"):
+                tgt = node.value.func.value.id
+            elif isinstance(node, (ast.Assign, ast.AugAssign)):
+                for t in (node.targets if isinstance(node, ast.Assign) else [node.target]):
+                    if isinstance(t, ast.Subscript) and isinstance(t.value, ast.Name):
+                        tgt = t.value.id
+            elif isinstance(node, ast.For):
+                for sub in ast.walk(node):
+                    if isinstance(sub, ast.Subscript) and isinstance(sub.ctx, ast.Store) and isinstance(sub.value, ast.Name):
+                        tgt = sub.value.id
+                    if isinstance(sub, ast.Call) and isinstance(sub.func, ast.Attribute) and isinstance(sub.func.value, ast.Name) and sub.func.attr in ("update", "append", "extend", "add", "setdefault"):
+                        tgt = sub.func.value.id
+            if tgt is not None and tgt in mod.constants:
+                self.__dict__.setdefault("import_time_mutated", set()).add((mod.name, tgt))
         self._partials_as_functions(mod)
         # `OldName = NewName` with NewName a class of the module: the very same class under a second name
         for name, node in list(mod.constants.items()):
@@ -540,6 +558,8 @@ class Model:
     def const_value(self, mod: ModuleInfo, name: str):
         """Fold a module-level constant; raises AnalysisError if not foldable."""
         key = (mod.name, name)
+        if key in self.__dict__.get("import_time_mutated", ()):
+            raise AnalysisError(f"module-level table {mod.name}.{name} is filled further by statements that run at import time: its content is not the literal it is bound to")
         if key in self._const_cache:
             return self._const_cache[key]
         if name not in mod.constants:
